@@ -171,7 +171,8 @@ int main(int argc, char** argv)
     }
     catch(const sbe_error& e)
     {
-        reporter.error(e.what());
+        // the message is not a format string, it can contain `{` or `}`
+        reporter.error("{}", e.what());
         return 1;
     }
 
